@@ -348,3 +348,12 @@ func TestMeta(t *testing.T) {
 	js, _ := json.Marshal(map[string]any{"rule": p.Rule, "real": p.Real, "stub": p.Stub})
 	fmt.Println("META " + string(js))
 }
+
+// TestC06Child is the body of the real child process of C06 scenario B.
+func TestC06Child(t *testing.T) {
+	spec := os.Getenv("ZSIM_C06_CHILD")
+	if spec == "" {
+		t.Skip()
+	}
+	C06ChildMain(spec)
+}
